@@ -19,9 +19,6 @@ theorem ourMac_length (c : Cfg) (h : CfgOk c) : c.ourMac.length = 6 := by
   · rfl
   · exact h.mac6
 
-def helloFrame (c : Cfg) (g : Glob) (gen tos : Nat) (cur app : Mac) : List Nat :=
-  lltdHeader 0 bcast c.ourMac bcast c.ourMac 0 X.opHello tos ++ helloHeader gen cur app ++ helloTlvs c g
-
 theorem helloFrame_length (c : Cfg) (g : Glob) (gen tos : Nat) (cur app : Mac) (hc : CfgOk c)
     (h1 : cur.length = 6) (h2 : app.length = 6) :
     (helloFrame c g gen tos cur app).length = 46 + (helloTlvs c g).length := by
